@@ -96,7 +96,29 @@ func c13RandomLong(c *core.C) string {
 
 const c13Levels = 5
 
-var c13SentinelNames = []string{"b.proto", "a.b", "...", "a/b.proto", "a/a.b", "a/a", "root.txt"}
+var c13SentinelNames = []string{"b.proto", "a.b", "...", "a/b.proto", "a/a.b", "a/a", "root.txt", "rootx/b.proto", "rootx/in.proto", "rootx/a/in.proto", "l1x/root/in.proto", "l1x/b.proto"}
+
+// c13SiblingPaths: spellings that climb out of the root and come back down into a SIBLING whose name has the root's
+// name (or the name of a directory above it) as a string prefix: root → rootx, root.txt; l1 → l1x; x → xx. A view
+// that decides containment on strings instead of path components lets exactly these through.
+func c13SiblingPaths() []string {
+	ups := []string{"..", "./..", "a/../..", "..//.", "a/b.proto/../../..", "a/./../..", "../.", ".//.."}
+	sibs := []string{"rootx", "root.txt", "rootx/a", "root/../rootx", "../l1x", "../l1x/root", "../xx/root", "../l1/rootx", "../x/rootx"}
+	tails := []string{"", "b.proto", "in.proto", "a", "a/in.proto"}
+	var out []string
+	for _, u := range ups {
+		for _, sb := range sibs {
+			for _, t := range tails {
+				p := u + "/" + sb
+				if t != "" {
+					p += "/" + t
+				}
+				out = append(out, p)
+			}
+		}
+	}
+	return out
+}
 
 type c13World struct {
 	base    string // base/l5/…/l1/root
@@ -145,7 +167,8 @@ func c13Build(base string) (*c13World, error) {
 	// parent memory bucket: objects outside the prefixes "root" and "x/root"
 	w.mem = storagemem.NewReadWriteBucket()
 	ctx := context.Background()
-	for _, name := range []string{"b.proto", "a.b", "...", "a/b.proto", "a/a.b", "a/a", "x/b.proto", "x/a.b", "x/...", "x/a/b.proto", "x/a/a", "rootx/b.proto", "x/rootx/a"} {
+	for _, name := range []string{"b.proto", "a.b", "...", "a/b.proto", "a/a.b", "a/a", "x/b.proto", "x/a.b", "x/...", "x/a/b.proto", "x/a/a", "rootx/b.proto", "x/rootx/a",
+		"rootx/in.proto", "rootx/a/in.proto", "root.txt", "x/root.txt", "x/rootx/in.proto", "x/rootx/b.proto", "x/rootx/a/in.proto", "xx/root/in.proto", "xx/root/b.proto"} {
 		if err := storage.PutPath(ctx, w.mem, name, []byte("SENTINEL:mem:"+name)); err != nil {
 			return nil, err
 		}
@@ -315,6 +338,9 @@ func c13Run(c *core.C, idx int) {
 		for i := idx * c13Batch; i < (idx+1)*c13Batch && i < total; i++ {
 			paths = append(paths, c13String(i, maxLen))
 		}
+	} else if idx == nExh {
+		paths = c13SiblingPaths()
+		c.Count("sibling_paths", len(paths))
 	} else {
 		for i := 0; i < c13Batch; i++ {
 			paths = append(paths, c13RandomLong(c))
@@ -426,7 +452,7 @@ func c13Ops(ctx context.Context, c *core.C, w *c13World, k *c13Kind, p string, i
 			if pi := model.AnalyzePath(oi.Path()); pi.Escapes {
 				c.Violationf("escaping-object-path", fmt.Sprintf("kind=%s op=stat path=%q", k.name, p), "object path %q escapes", oi.Path())
 			}
-			if k.disk && !k.mem && !strings.HasPrefix(filepath.Clean(oi.ExternalPath()), w.rootDir) && k.name != "strip(disk)" {
+			if ep := filepath.Clean(oi.ExternalPath()); k.disk && !k.mem && ep != w.rootDir && !strings.HasPrefix(ep, w.rootDir+string(filepath.Separator)) && k.name != "strip(disk)" {
 				c.Violationf("outside-read", fmt.Sprintf("kind=%s op=stat path=%q", k.name, p), "stat resolved to %q outside root", oi.ExternalPath())
 			}
 		}
@@ -650,6 +676,6 @@ func init() {
 				c13CLI(c, idx-n-extra)
 			}
 		},
-		Required: []string{"paths", "escaping_paths", "outside_snapshots", "archive_ops", "archive_link_ops", "rejections_checked", "cli_runs", "cli_escaping_runs"},
+		Required: []string{"paths", "escaping_paths", "outside_snapshots", "archive_ops", "archive_link_ops", "rejections_checked", "cli_runs", "cli_escaping_runs", "sibling_paths"},
 	})
 }
